@@ -57,7 +57,7 @@ theorem alive_active {pol : Policy} {s : LState} (ia : InvA s) (ib : InvB pol s)
   cases hp : hd.parent with
   | none => exact ia.root_alive_active hm hp ha
   | some p =>
-    simp only [LState.alive, hp, List.any_eq_true, beq_iff_eq] at ha
+    simp only [LState.alive, hp, ia.noPins, List.any_nil, Bool.or_false, List.any_eq_true, beq_iff_eq] at ha
     obtain ⟨e, he, heq⟩ := ha
     have := ib.childCons hd hm (by simp [hp]) e he heq
     rw [← this]
@@ -91,9 +91,11 @@ theorem InvB.transfer {pol : Policy} {s s' : LState} (inv : InvB pol s) (hw : s'
 
 theorem coreSub_refl (hs : List Handle) : CoreSub hs hs := fun h hm => ⟨h, hm, SameCore.rfl' _⟩
 
-theorem lstep_invB (pol : Policy) {s : LState} (ia : InvA s) (inv : InvB pol s) (op : Op) :
-    InvB pol (lstep pol s op).1 := by
+theorem lstep_invB (pol : Policy) {s : LState} (ia : InvA s) (inv : InvB pol s) (op : Op)
+    (hop : op.isThread = false) : InvB pol (lstep pol s op).1 := by
   cases op with
+  | pinUse i c => cases hop
+  | unpinUse => cases hop
   | lend kinds =>
     simp only [lstep]
     split
@@ -284,10 +286,13 @@ theorem lstep_invB (pol : Policy) {s : LState} (ia : InvA s) (inv : InvB pol s) 
               have hcnd' : pol = .toMark ∨ s.leaked = false := hcnd
               exact noteAccess_flagB (i := i) (m := true) ia inv hmem halive hcnd'
 
-theorem lrun_invAB (pol : Policy) (ops : List Op) :
+theorem lrun_invAB (pol : Policy) (ops : List Op) (hst : singleThreaded ops = true) :
     ∀ {s : LState}, InvA s → InvB pol s → InvA (lrun pol s ops) ∧ InvB pol (lrun pol s ops) := by
   induction ops with
   | nil => intro s ha hb; exact ⟨ha, hb⟩
-  | cons o rest ih => intro s ha hb; exact ih (lstep_invA pol ha o) (lstep_invB pol ha hb o)
+  | cons o rest ih =>
+    intro s ha hb
+    simp only [singleThreaded, List.all_cons, Bool.and_eq_true, Bool.not_eq_true'] at hst
+    exact ih (by simpa [singleThreaded] using hst.2) (lstep_invA pol ha o hst.1) (lstep_invB pol ha hb o hst.1)
 
 end SteelVerif.C20
